@@ -970,6 +970,10 @@ def m0_js():
     m.add(StructDef("JTail", [("w", P("isize")), ("h", P("i16"))]))
     m.add(StructDef("JOptTail", [("o", Opt(P("i64"), "diplomat")), ("k", P("i8")), ("t", StructT("JTail")), ("q", Opt(P("i32"), "diplomat")), ("e", EnumT("Je"))]))
     m.add(StructDef("JOptPair", [("o", Opt(P("u8"), "diplomat")), ("p", StructT("JPair")), ("z", P("u8"))]))
+    # slices and strings as struct fields: {ptr, len} in the image, elements in a separately allocated buffer
+    m.add(StructDef("JSlices", [("n", P("u8")), ("a", Slice(P("u16"), "ref", "diplomat")), ("s", Str("utf8", "ref", "diplomat")), ("k", P("u32")),
+                                ("w", Str("utf16", "ref", "diplomat")), ("b", Slice(P("f64"), "ref", "diplomat")), ("z", P("i16"))]))
+    m.add(StructDef("JBytes", [("d", Slice(P("u8"), "ref", "diplomat")), ("t", P("u64")), ("i", Slice(P("i32"), "ref", "diplomat"))]))
     m.add(OpaqueDef("Js"))
     m.add(StructDef("JRefs", [("o", OpaqueRef("Js")), ("n", P("u8")), ("p", OpaqueRef("Js", optional=True)), ("k", P("u16"))]))
     for sd in list(m.structs.values()):
